@@ -23,6 +23,7 @@ import (
 	"os"
 	"strconv"
 	"strings"
+	"sync"
 	"unsafe"
 
 	"github.com/segmentio/encoding/json"
@@ -60,13 +61,20 @@ type c17Tok struct {
 }
 
 // the companion's own token stream, taken once from a tokenizer used alone
-var c17CompanionToks = func() (out []c17Tok) {
-	t := json.NewTokenizer([]byte(c17CompanionDoc))
-	for t.Next() {
-		out = append(out, c17Tok{string(t.Value), t.Depth, t.Index, t.IsKey})
-	}
-	return
-}()
+var (
+	c17CompanionOnce sync.Once
+	c17CompanionVal  []c17Tok
+)
+
+func c17CompanionToks() []c17Tok {
+	c17CompanionOnce.Do(func() {
+		t := json.NewTokenizer([]byte(c17CompanionDoc))
+		for t.Next() {
+			c17CompanionVal = append(c17CompanionVal, c17Tok{string(t.Value), t.Depth, t.Index, t.IsKey})
+		}
+	})
+	return c17CompanionVal
+}
 
 // "a Reset tokenizer behaves like a new one": the token stream of every document is also read with a
 // tokenizer that was used before - to the end of a document, stopped inside one, after an error, on input
@@ -236,10 +244,10 @@ func c17RunDoc(c *Ctx, k c17Case) {
 				return
 			}
 			if k.Companion {
-				if comp == nil || ci == len(c17CompanionToks) {
+				if comp == nil || ci == len(c17CompanionToks()) {
 					comp, ci = json.NewTokenizer([]byte(c17CompanionDoc)), 0
 				}
-				w := c17CompanionToks[ci]
+				w := c17CompanionToks()[ci]
 				if !comp.Next() || string(comp.Value) != w.val || comp.Depth != w.depth || comp.Index != w.index || comp.IsKey != w.isKey {
 					fail("Tokenizer (a second tokenizer used in turn with this one)", fmt.Sprintf("token %d of %s: %s depth=%d index=%d", ci, c17CompanionDoc, w.val, w.depth, w.index),
 						fmt.Sprintf("%s depth=%d index=%d err=%v", comp.Value, comp.Depth, comp.Index, comp.Err))
@@ -374,8 +382,38 @@ func c17RunDoc(c *Ctx, k c17Case) {
 // c17Literal: a sequence of literal units of spec/JsonString.tla as a string token - on its own, as an element, a member
 // name and a member value: one token of class String whose decoded value (String, RawValue.Unquote) is what the
 // definition says, escapes resolved and invalid UTF-8 replaced; a Reset tokenizer gives the same
+// c17NoPanic: whatever the bytes, the Tokenizer ends: the literal (well formed or broken) in four document forms and
+// every prefix of each, handed over without spare capacity
+func c17NoPanic(c *Ctx, k strCase, lit string) {
+	for wi, doc := range []string{lit, "[" + lit + "]", "{" + lit + ":" + lit + "}", `{"k":[` + lit + `,1]}`} {
+		for cut := 1; cut <= len(doc); cut++ {
+			in := make([]byte, cut)
+			copy(in, doc[:cut])
+			c.Eval(1)
+			calls := 0
+			if p := protect(func() {
+				t := json.NewTokenizer(in[:cut:cut])
+				for t.Next() {
+					if t.Kind().Class() == json.String {
+						t.String()
+					}
+					if calls++; calls > cut+2 {
+						break
+					}
+				}
+			}); p != "" || calls > cut+2 {
+				c.Diverge("C17", "Tokenizer.Next(any bytes)", "ends without a panic", fmt.Sprintf("%s calls=%d (document form %d, first %d bytes: %q)", p, calls, wi, cut, clipS(doc[:cut])), "", k)
+				return
+			}
+		}
+	}
+}
+
 func c17Literal(c *Ctx, k strCase) {
 	v := k.Str
+	if l0, _, ok := renderLit(v, k.Var); ok && len(k.Pads) > 0 && k.Pads[0] == 0 {
+		c17NoPanic(c, k, `"`+strings.Join(l0, "")+`"`)
+	}
 	if !v.OK {
 		return // broken literals are C05's
 	}
